@@ -46,7 +46,7 @@ POSITIONS = ["top", "group", "repeat", "repeat/repeat", "group/repeat/group", "r
 def plan(tier, seed):
     return {"shards": 16, "timeout": 900 if tier == "quick" else 3600, "n_random": 900 if tier == "quick" else 14000,
             "stride": 1,
-            "floors": {"suite_conversions_judged": 500, "defaults_judged": 1500, "triggers_judged": 200, "dyn_hook_evals": 1000, "distinct": 300}}
+            "floors": {"suite_conversions_judged": 500, "defaults_judged": 1500, "triggers_judged": 200, "dyn_hook_evals": 1000, "distinct": 300, "loop_trigger_forms": 40, "controlless_trigger_forms": 40}}
 
 
 def classify(text, qtype):
@@ -261,10 +261,124 @@ def judge(ctx, form, klass, sig, sample=False, xform=None):
         ctx.sample({"class": klass, "sig": sig, "form_md": common.sheets_to_md(form.to_sheets())[:1000], "observed": "exactly-once and placement held"})
 
 
+def loop_trigger_forms(ctx):
+    """Triggered calculations and defaults on rows of the legacy 'begin loop over <list>' section: the row exists once per choice, and each copy gets exactly
+    one action (nested in the triggering question's control, targeting that copy, and no bind calculate) - or its own literal / first-load default."""
+    from .. import xf
+    n = 0
+    for kind in ("calculate", "text", "integer", "background-geopoint", "static-default", "dynamic-default"):
+        for nch in (1, 2, 3):
+            for where in ("loop", "loop/group", "group(control)"):
+                n += 1
+                if not ctx.mine(n) or (where == "loop/group" and nch > 1):  # section names are unique form-wide: a group inside a loop over two choices is refused by design
+                    continue
+                cells = {}
+                if kind in ("calculate", "text", "integer"):
+                    cells = {"calculation": "concat('x', ${src})", "trigger": "${src}"}
+                    if kind != "calculate":
+                        cells["label"] = "T"
+                    qt = kind
+                elif kind == "background-geopoint":
+                    cells, qt = {"trigger": "${src}"}, kind
+                elif kind == "static-default":
+                    cells, qt = {"label": "T", "default": "pending"}, "text"
+                else:
+                    cells, qt = {"label": "T", "default": "concat('d', ${src})"}, "text"
+                tgt = Row("q", qt, "tgt", cells)
+                inner = [Row("q", "text", "own", {"label": "%(label)s" if where != "group(control)" else "own"}), tgt]
+                if where == "loop/group":
+                    inner = [Row("group", "begin group", "ing", {"label": "G"}, inner)]
+                if where == "group(control)":
+                    sec = Row("group", "begin group", "lp", {"label": "L"}, inner)
+                    copies = ["/data/lp/tgt"]
+                else:
+                    sec = Row("group", "begin loop over l1", "lp", {"label": "L"}, inner, meta={"end_type": "end loop"})
+                    copies = [f"/data/lp/c{j}/{'ing/' if where == 'loop/group' else ''}tgt" for j in range(nch)]
+                f = Form()
+                f.survey = [Row("q", "text", "src", {"label": "S"}), sec]
+                f.choices = {"l1": [{"name": f"c{j}", "label": f"C{j}"} for j in range(nch)]}
+                o = drive.convert_form(f)
+                ctx.case(sig=f"loop-trigger|{kind}|{nch}|{where}")
+                ctx.ctr("loop_trigger_forms")
+                wit = common.witness(f, klass="loop-trigger")
+                if not o.ok:
+                    ctx.viol(f"loop:{kind}:valid-form-refused", o.brief()[:200], wit)
+                    continue
+                p = xf.Parsed(o.xform)
+                bm = p.bind_map()
+                for path in copies:
+                    nodes = p.resolve(path)
+                    if len(nodes) != 1:
+                        ctx.viol(f"loop:{kind}:copy-missing", f"{path} names {len(nodes)} instance nodes", wit)
+                        continue
+                    node_text = (nodes[0].text or "").strip()
+                    acts = [a for a in p.body_actions() + p.model_actions() if a.get("ref") == path]
+                    calc = [b.get("calculate") for b in bm.get(path, []) if b.get("calculate")]
+                    ctx.ctr("triggers_judged" if "default" not in kind else "defaults_judged")
+                    if kind == "static-default":
+                        if node_text != "pending" or acts:
+                            ctx.viol("loop:static-default:not-exactly-the-literal", f"{path}: node text {node_text!r}, actions {len(acts)}", wit)
+                        continue
+                    if kind == "dynamic-default":
+                        ok = len(acts) == 1 and acts[0].getparent() is p.model and acts[0].get("event") == "odk-instance-first-load" and not node_text
+                        if not ok:
+                            ctx.viol("loop:dynamic-default:not-exactly-one-first-load-action", f"{path}: node text {node_text!r}, actions {[(xf.local(a.tag), a.get('event'), xf.local(a.getparent().tag)) for a in acts]}", wit)
+                        continue
+                    want_tag = "setgeopoint" if kind == "background-geopoint" else "setvalue"
+                    ok = (len(acts) == 1 and xf.local(acts[0].tag) == want_tag and acts[0].get("event") == "xforms-value-changed"
+                          and acts[0].getparent().get("ref") == "/data/src" and not calc)
+                    if ok and want_tag == "setvalue" and "concat('x'," not in (acts[0].get("value") or ""):
+                        ok = False
+                    if not ok:
+                        ctx.viol(f"loop:{kind}:not-exactly-one-action-in-the-trigger-control", f"{path}: actions {[(xf.local(a.tag), a.get('event'), a.getparent().get('ref'), a.get('value')) for a in acts]}, "
+                                 f"bind calculate {calc}", wit)
+
+
+def controlless_trigger_forms(ctx):
+    """A trigger naming a question that has no control in the body (metadata and action types, calculate, hidden, a question hidden by its own calculation):
+    there is nowhere to nest the action, so the form is refused - converting it would drop the calculation silently."""
+    from .. import xf
+    triggers = [("start-geopoint", {}), ("background-audio", {}), ("calculate", {"calculation": "1"}), ("hidden", {}), ("start", {}), ("today", {}), ("deviceid", {}),
+                ("text", {"calculation": "'x'"}), ("integer", {"calculation": "1"}), ("text", {"label": "visible (control form)"})]
+    targets = [("calculate", {"calculation": "concat('x', ${trg})"}), ("text", {"label": "T", "calculation": "1 + 1"}), ("background-geopoint", {}), ("text", {"label": "T"})]
+    n = 0
+    for (tt, tc), (gt, gc) in itertools.product(triggers, targets):
+        for pos in ("top", "group", "repeat"):
+            n += 1
+            if not ctx.mine(n):
+                continue
+            trg = Row("q", tt, "trg", dict(tc))
+            tgt = Row("q", gt, "tgt", dict(gc, trigger="${trg}"))
+            rows = [trg, tgt]
+            if pos != "top":
+                rows = [Row(pos, f"begin {pos}", "sec", {"label": "S"}, [Row("q", "text", "pad", {"label": "P"}), trg, tgt])]
+            f = Form()
+            f.survey = rows
+            o = drive.convert_form(f)
+            visible = "label" in tc
+            ctx.case(sig=f"controlless-trigger|{tt}|{bool(tc.get('calculation'))}|{gt}|{pos}")
+            ctx.ctr("controlless_trigger_forms")
+            ctx.ctr("triggers_judged")
+            wit = common.witness(f, klass="controlless-trigger")
+            if not o.ok:
+                if visible and o.exc_is_pyxform:
+                    ctx.viol("trigger:visible-trigger-refused", f"trigger {tt} (with a label) for a {gt}: {o.brief()[:200]}", wit)
+                continue
+            p = xf.Parsed(o.xform)
+            base = "/data/" + ("sec/" if pos != "top" else "")
+            acts = [a for a in p.body_actions() if a.get("ref") == base + "tgt" and a.getparent().get("ref") == base + "trg"]
+            if len(acts) != 1:
+                ctx.viol(f"trigger:no-control-to-nest-the-action:{tt}{'+calculation' if tc.get('calculation') and tt != 'calculate' else ''}:accepted-and-action-lost",
+                         f"trigger ${{trg}} is a {tt} {tc} (no control in the body); the {gt} was converted with {len(acts)} actions in that control "
+                         f"(all actions on it: {[(xf.local(a.tag), a.getparent().get('ref')) for a in p.body_actions() + p.model_actions() if a.get('ref') == base + 'tgt']})", wit)
+
+
 def run_shard(ctx):
     from ..hooks import counters, install_dyn_hook
     install_dyn_hook(classify)
     alias_type_pairs(ctx)
+    loop_trigger_forms(ctx)
+    controlless_trigger_forms(ctx)
     pl = plan(ctx.tier, ctx.seed)
     n = 0
     for qt, (kls, dflts), pos in itertools.product(TYPES, (("static", STATIC), ("dynamic", DYNAMIC), ("ambiguous", AMBIG)), POSITIONS):
@@ -459,6 +573,12 @@ def replay(w):
             return
         if wit.get("klass") == "include":
             include_history(ctx)
+            return
+        if wit.get("klass") == "loop-trigger":
+            loop_trigger_forms(ctx)  # small deterministic families: run them whole
+            return
+        if wit.get("klass") == "controlless-trigger":
+            controlless_trigger_forms(ctx)
             return
         if str(wit.get("klass", "")).startswith("json-history"):
             json_histories(ctx)
